@@ -254,4 +254,19 @@ def priority_scheduler(s, results: List[ExecutionResult],
             susobj = Suspend(sus.container_id, sus.pool_id)
             suspensions.append(susobj)
 
+            # Remember the suspended work right away.  A write-out that takes a
+            # single tick moves the container from active to suspended within
+            # one executor tick, so it would never be seen in
+            # suspending_containers and its operators would never be re-queued.
+            ops = [op for op in sus.operators if op.state() != OperatorState.COMPLETED]
+            retry_stats = RetryStats(
+                old_ram=sus.assignment.ram,
+                old_cpu=sus.assignment.cpu,
+                error=sus.error,
+                container_id=sus.container_id,
+                pool_id=sus.pool_id,
+            )
+            s.suspending[sus.container_id] = WaitingQueueJob(priority=sus.priority, p=ops[0].pipeline,
+                                                             ops=ops, retry_stats=retry_stats)
+
     return suspensions, new_assignments
